@@ -140,6 +140,11 @@ def seeds():
     out.append(('v1', b'PROXY UNKNOWN ffff::1 ffff::2 65535 65535\r\n'))
     out.append(('v1', b'PROXY UNKNOWN ' + b'x' * 91 + b'\r\n'))          # exactly 107
     out.append(('v1', b'PROXY UNKNOWN ' + b'x' * 92 + b'\r\n'))          # 108: too long
+    # 107 bytes of a line whose fields would all be valid (a zero-padded port) and whose CRLF comes only afterwards: the header is
+    # over-long, not valid (the model mutant `proxy-v1-needs-no-crlf` survived the campaign until this line existed)
+    pre = b'PROXY TCP4 1.2.3.4 5.6.7.8 1 '
+    out.append(('v1', pre + b'0' * (107 - len(pre) - 2) + b'25\r\n'))
+    out.append(('v1', pre + b'0' * (105 - len(pre) - 2) + b'25\r\n'))      # the same within the limit: valid, port 25
     out.append(('v1', b'PROXY TCP4 1.2.3.4 5.6.7.8 1 2 3\r\n'))
     out.append(('v1', b'PROXY TCP4  1.2.3.4 5.6.7.8 1 2\r\n'))
     out.append(('v1', b'PROXY \r\n'))
